@@ -11,10 +11,14 @@ binding:  harness/cmd/x05   direct level: the real remedy.Run + remedy.State on 
                             compiled from the working tree into the importable package internal/x05plugin - only the package
                             clause is rewritten) fed with msgpack chunks, known-endpoints file rewritten under the real ticker
 """
-import copy, json, os, re, shutil, subprocess, time
+import copy, json, os, re, shutil, subprocess, threading, time
 from vlib import Broken, REPO, VERIF, GOENV, read_ndjson, write_ndjson, parallel
 
 SPEC = "x05_remedy_stats"
+# the box is shared: at most this many trace-validation JVMs at a time, each with a bounded heap (an unbounded JVM takes a
+# quarter of the RAM and the kernel's OOM killer then picks one of them: rc -9)
+TV_SLOTS = threading.Semaphore(6)
+os.environ.setdefault("JAVA_TOOL_OPTIONS", "-Xmx2g")
 PLUGIN_DIR = os.path.join(REPO, "proxy/src/services/aggregation-output-plugin")
 SLACK_MS = 5000          # scheduling slack granted to the refresher beyond its interval (the box is shared and often overloaded)
 REFRESH_S = 1
@@ -281,7 +285,8 @@ def validate(ctx, events, tag, max_rounds=4):
                     flat.append(e)
                     index.append((fi, ri, k))
         write_ndjson(os.path.join(wd, "trace.ndjson"), flat)
-        ok, hwm, r = ctx.tlc_trace(wd, "RemedyStatsTrace", os.path.join(wd, "trace.ndjson"), cfg="RemedyStatsTrace.cfg", timeout=1500)
+        with TV_SLOTS:
+            ok, hwm, r = ctx.tlc_trace(wd, "RemedyStatsTrace", os.path.join(wd, "trace.ndjson"), cfg="RemedyStatsTrace.cfg", timeout=1500)
         d = re.findall(r'TRACE-DRIFT (.*?)"', r.out)
         if d and d[-1] != "ok" and drift is None:
             drift = d[-1]
@@ -435,6 +440,7 @@ def run(ctx):
     jobs += [(w + ".cfg", "witness %s (expected to be violated)" % w, w) for w in (WITNESSES if T else WITNESSES[:1])]
     if T:
         jobs.append(("MC_plugin_large.cfg", "laws of P, two rewrites of the known-endpoints file", "plugin-large"))
+        jobs.append(("MC_benign_remedy_first.cfg", "permissiveness: remedy statistics before discovery (lookup before the insertion) is accepted", "benign-first"))
 
     def part(name):
         if name == "mc":
